@@ -4,7 +4,7 @@
 From TP Require Import PInv.
 
 Definition cex_cfg : config :=
-  {| cf_size := Fin 1; cf_kind := KTask; cf_bad := false; cf_w := default_w;
+  {| cf_size := Fin 1; cf_kind := KTask; cf_bad := []; cf_w := default_w;
      cf_ecb := CbNone; cf_ccb := CbNone |}.
 
 (* a gather_and_close driver whose second gather is complete, ready to resume *)
